@@ -24,6 +24,9 @@ pub fn replay_bytes(v: &Value, f: &dyn Fn(&[u8], &mut Acc)) -> i32 {
         if let Some(t) = c["truncated_to"].as_u64() {
             b.truncate(t as usize);
         }
+        if let Some(t) = c["appended_bytes"].as_u64() {
+            b.extend(std::iter::repeat(0x5a).take(t as usize));
+        }
         b
     } else {
         println!("this case is not byte-addressed; re-run the check to re-evaluate it:\n{}", c);
